@@ -344,7 +344,27 @@ def _hoist(src: str) -> str:
     return src.replace("    counter = 0\n", "\n".join(l[8:] for l in block.splitlines()) + "\n    counter = 0\n")
 
 
+_G_LOOP = ("    n_qubits = np.shape(x_matrix)[1]\n"
+           "    # determining the phase factor\n"
+           "    g_sum = 0\n"
+           "    for j in range(n_qubits):\n"
+           "        g_sum = g_sum + g_function(\n"
+           "            x_matrix[row_to_add, j],\n"
+           "            z_matrix[row_to_add, j],\n"
+           "            x_matrix[target_row, j],\n"
+           "            z_matrix[target_row, j],\n"
+           "        )\n")
+_G_VECTOR = ("    x1, z1 = x_matrix[row_to_add], z_matrix[row_to_add]\n"
+             "    x2, z2 = x_matrix[target_row], z_matrix[target_row]\n"
+             "    g_sum = np.sum(\n"
+             "        x1 * z1 * (z2 - x2)\n"
+             "        + x1 * (1 - z1) * z2 * (2 * x2 - 1)\n"
+             "        + (1 - x1) * z1 * x2 * (1 - z2)\n"
+             "    )\n")
+
+
 KNOCKOUTS = [
+    Knockout("row-sum-vectorised-z-term-halved", "graphiq/backends/stabilizer/functions/linalg.py", sub_once(_G_LOOP, _G_VECTOR), "prim.row-sum", "vectorised phase term"),
     Knockout("stabilizer-tableau-eq-or", TABLEAU, sub_once("            return np.all(self.phase == other.phase) and np.array_equal(", "            return np.all(self.phase == other.phase) or np.array_equal("), "eq.decision", "StabilizerTableau.__eq__"),
     Knockout("clifford-tableau-eq-drops-iphase", CTABLEAU, sub_once("                and np.all(self.iphase == other.iphase)\n", ""), "eq.decision", "CliffordTableau.__eq__"),
     Knockout("fidelity-exponent-truncated", METRIC, sub_once("    return np.abs(inner_product(tableau1, tableau2)) ** 2", "    overlap = np.abs(inner_product(tableau1, tableau2))\n    if overlap == 0:\n        return 0.0\n    return 2.0 ** int(2 * np.log2(overlap))"), "fid.shape", "int() of a float logarithm"),
